@@ -33,6 +33,9 @@ enum Op {
     Filters(P2pBytes),
     /// deliver this SendBlock (the last block of the pending batch)
     Block(P2pBytes),
+    /// deliver this SendLastStateProof: the network switched to a branch that forks off a remembered last-N header
+    /// (reorg section present: commit_prove_state removes matched blocks above the fork point and rolls the index back)
+    ForkProof(P2pBytes),
 }
 
 impl Op {
@@ -41,6 +44,7 @@ impl Op {
             Op::SetScripts(c, r) => format!("set_scripts({},{})", c, r.len()),
             Op::Filters(_) => "BlockFilters".into(),
             Op::Block(_) => "SendBlock(last of batch)".into(),
+            Op::ForkProof(_) => "SendLastStateProof(fork rollback)".into(),
         }
     }
 }
@@ -50,6 +54,8 @@ struct Handles {
     peers: Arc<Peers>,
     peer: PeerIndex,
     log: NetLog,
+    consensus: ckb_chain_spec::consensus::Consensus,
+    ccfg: ClientCfg,
 }
 
 fn exec(h: &Handles, op: &Op) {
@@ -73,6 +79,10 @@ fn exec(h: &Handles, op: &Op) {
             let mut s = SyncProtocol::new(h.storage.clone(), h.peers.clone());
             rt.block_on(s.received(RecNet::new(P::Sync.sp(), h.log.clone()), h.peer, data.clone()));
         }
+        Op::ForkProof(data) => {
+            let mut lc = super::super::client::new_lc(&h.storage, &h.peers, &h.consensus, &h.ccfg);
+            rt.block_on(lc.received(RecNet::new(P::Lc.sp(), h.log.clone()), h.peer, data.clone()));
+        }
     }
 }
 
@@ -88,7 +98,9 @@ fn digest(h: &Handles) -> Value {
     mem.sort();
     let stored = h.storage.get_earliest_matched_blocks().map(|(s, c, b)| format!("{}+{}x{}", s, c, b.len()));
     let idx = super::super::client::digest_kv(&dump_index(&h.storage));
-    json!({"scripts": scripts, "min_filtered": h.storage.get_min_filtered_block_number(), "stored_matched": stored, "memory_matched": mem, "index": hex(&idx[..8])})
+    let tip = h.storage.get_tip_header().calc_header_hash();
+    let last_n: Vec<String> = h.storage.get_last_n_headers().into_iter().map(|(n, hh)| format!("{}:{}", n, hex(&hh.as_slice()[..4]))).collect();
+    json!({"tip": hex(&tip.as_slice()[..6]), "last_n": last_n, "scripts": scripts, "min_filtered": h.storage.get_min_filtered_block_number(), "stored_matched": stored, "memory_matched": mem, "index": hex(&idx[..8])})
 }
 
 struct Setup {
@@ -183,13 +195,55 @@ fn setup(seed: u64) -> Option<Setup> {
     }
     let filters = server::block_filters(chain, minf + 1, 6)?;
     let peer = w.peers[pi].id;
-    let h = Handles { storage: c.storage.clone(), peers: c.peers.clone(), peer, log: c.log.clone() };
+    // the fork switch: the peer moves to a heavier branch that forks two blocks below the proved tip; it announces the new
+    // tip, the client asks for the proof (start = its tip on the abandoned branch), the answer is kept as an operation
+    let fork_proof = {
+        let tipn: u64 = w.c().storage.get_tip_header().raw().number().unpack();
+        if tipn < 6 || w.chains[0].tip() != tipn {
+            if std::env::var("VERIF_DEBUG").is_ok() {
+                eprintln!("DEBUG setup: client tip {} chain tip {}", tipn, w.chains[0].tip());
+            }
+            return None;
+        }
+        let f = w.chains[0].fork(tipn - 2, 9, seed | 1);
+        let nci = w.add_chain(f);
+        w.switch_peer_chain(pi, nci);
+        let ann = server::lc_msg(server::last_state(&w.chains[nci]));
+        let _ = w.deliver(pi, super::super::world::Resp::honest(P::Lc, ann), &mut NoHook);
+        struct Cap(Option<P2pBytes>);
+        impl super::super::world::Hook for Cap {
+            fn respond(&mut self, _w: &mut World, _pi: usize, sent: &super::super::net::Sent, honest: Vec<super::super::world::Resp>) -> Vec<super::super::world::Resp> {
+                if sent.proto == P::Lc.id() && server::kind_of(P::Lc, &sent.data) == "GetLastStateProof" {
+                    if let Some(r) = honest.into_iter().find(|r| server::kind_of(P::Lc, &r.data) == "SendLastStateProof") {
+                        self.0 = Some(r.data);
+                    }
+                }
+                vec![]
+            }
+        }
+        let mut cap = Cap(None);
+        w.route(&mut cap);
+        // the proof request for a new last state goes out with the refresh tick
+        w.advance(1_000);
+        let _ = w.fire(P::Lc, crate::protocols::light_client::constant::REFRESH_PEERS_TOKEN, &mut cap);
+        w.route(&mut cap);
+        if w.dead {
+            return None;
+        }
+        if cap.0.is_none() && std::env::var("VERIF_DEBUG").is_ok() {
+            eprintln!("DEBUG setup: no proof request captured; trace {:?}", w.trace_vec().into_iter().rev().take(6).collect::<Vec<_>>());
+        }
+        cap.0?
+    };
+    let c = w.c();
+    let h = Handles { storage: c.storage.clone(), peers: c.peers.clone(), peer, log: c.log.clone(), consensus: c.consensus.clone(), ccfg: ClientCfg { last_n: 5, cp_interval: 2000, max_outbound: 1, mmr_epoch: 0, blocks_in_transit: 16 } };
     let ops = vec![
         Op::SetScripts("all", vec![(lock_script(2), ST::Lock, 3)]),
         Op::SetScripts("partial", vec![(lock_script(2), ST::Lock, 0)]),
         Op::SetScripts("delete", vec![(lock_script(1), ST::Lock, 0)]),
         Op::Filters(server::filter_msg(filters)),
         Op::Block(held),
+        Op::ForkProof(fork_proof),
     ];
     Some(Setup { w, h, ops })
 }
@@ -223,6 +277,9 @@ fn run_serial(seed: u64, a: usize, b: usize) -> Option<(Value, u64, Value)> {
         return None;
     }
     let d = digest(&s.h);
+    if std::env::var("VERIF_DEBUG").is_ok() && (a == 5 || b == 5) {
+        eprintln!("DEBUG serial {}/{} writes_a {}\n  s0 {}\n  d  {}\n  bans {:?}", a, b, writes_a, s0, d, s.h.log.bans_len());
+    }
     let mut s = s;
     s.w.close();
     Some((d, writes_a, s0))
@@ -365,7 +422,7 @@ fn run_concurrent(seed: u64, a: usize, b: usize, k: u64) -> Conc {
 }
 
 pub fn run(cfg: &RunCfg, out: &Out) {
-    let n_ops = 5;
+    let n_ops = 6;
     let mut pairs: Vec<(usize, usize)> = vec![];
     for a in 0..n_ops {
         for b in 0..n_ops {
